@@ -321,7 +321,7 @@ func ruleSortBeforeBuild(w *World, r *Report) {
 			}
 		}
 	}
-	r.Expect("prioritized slices consumed in initialisers", n, 5)
+	r.Expect("prioritized slices consumed in initialisers", n, 2)
 }
 
 // ---- C20-C -----------------------------------------------------------------------------------------
@@ -709,7 +709,7 @@ func ruleFreeParsersLast(w *World, r *Report) {
 		}
 	}
 	r.Expect("spreads of the trigger-less list", len(spreads), 1)
-	r.Expect("stores into the trigger table", len(tableStores), 2)
+	r.Expect("stores into the trigger table", len(tableStores), 1)
 	var parseOnce *ssa.Function
 	for oc, call := range w.CG().OnceClosures {
 		for _, pf := range w.Entries().Parse {
